@@ -139,9 +139,9 @@ def check_consts(ctx):
 def reader_layout(ctx, inst, body):
     """symbolic (offset, width) of every from_le_bytes read and of the key slice in parse_record"""
     tr = A.tracer(body)
-    offs = [l for l in range(len(body.locals)) if body.local_name(l) == "offset"]
-    klen = [l for l in range(len(body.locals)) if body.local_name(l) == "key_len"]
-    keysyms = set(klen)
+    # the running offset: the user `usize` local that is assigned more than once
+    offs = [l for l in range(len(body.locals)) if body.local_name(l) and body.local_ty(l) == "usize" and len(body.defs.get(l, [])) >= 2]
+    keysyms = set()
     for n in body.calls():
         if call_matches(n.ev, "from_le_bytes") and width_of(n.ev) == "u16":
             keysyms.add(n.id)   # the decoded key length is the symbol `k`
@@ -307,7 +307,7 @@ def check_record(ctx):
                   "the post-read identity check compares marker, key length, key, value length and timestamp", None, {"compared": sorted(cmp_fields)})
         # offsets: key_len at [4,5]; key at 6; value_len at 6+k .. +8; timestamp +8..+16
         env = {}
-        keysyms = {l for l in range(len(b.locals)) if b.local_name(l) == "key_len"}
+        keysyms = set()
         u16s = sorted([n for n in b.calls() if call_matches(n.ev, "from_le_bytes") and width_of(n.ev) == "u16"], key=lambda x: x.id)
         if len(u16s) == 2:
             keysyms.add(u16s[1].id)
@@ -315,18 +315,16 @@ def check_record(ctx):
             ctx.check(idx == [4, 5], inst, "PIN", b.path, "identity check reads key_len from bytes [4], [5]", b.where(u16s[1].id), {"indices": idx})
             idx0 = const_indices(tr.operand(u16s[0].ev["args"][0]))
             ctx.check(idx0 == [0, 1], inst, "PIN", b.path, "and the sector marker from bytes [0], [1]", b.where(u16s[0].id), {"indices": idx0})
-        names = {b.local_name(l): l for l in range(len(b.locals)) if b.local_name(l)}
-        forms = {}
-        for nm in ("key_at", "value_len_at"):
-            if nm in names:
-                d = b.defs.get(names[nm], [])
-                if len(d) == 1:
-                    f = lin(b, tr.node_value(d[0]), env, keysyms)
-                    if f is not None:
-                        env[names[nm]] = f
-                        forms[nm] = f.t()
-        ctx.check(forms.get("key_at") == [6, 0] and forms.get("value_len_at") == [6, 1], inst, "PIN", b.path,
-                  "identity check reads the key at 6 and value_len at 6 + key_len", None, {"found": forms})
+        # single-assignment usize user locals (key_at, value_len_at, ...) evaluated in definition order
+        forms = []
+        for l in sorted((l for l in range(len(b.locals)) if b.local_name(l) and b.local_ty(l) == "usize" and len(b.defs.get(l, [])) == 1),
+                        key=lambda l: b.defs[l][0]):
+            f = lin(b, A.tracer(b, False).node_value(b.defs[l][0]), env, keysyms)
+            if f is not None:
+                env[l] = f
+                forms.append(f.t())
+        ctx.check([6, 0] in forms and [6, 1] in forms, inst, "PIN", b.path,
+                  "identity check locates the key at 6 and value_len at 6 + key_len", None, {"found": forms})
         rngs = []
         for n in b.nodes:
             if n.kind == "assign" and n.ev.get("rv") == "agg" and (n.ev.get("adt") or "").endswith("ops::Range"):
